@@ -547,7 +547,7 @@ func runGoChildCase(c *Case) string {
 	if err != nil {
 		// the Go runtime prints "panic: …" and exits with status 2 when a goroutine dies of a panic
 		if strings.Contains(errb.String(), "panic:") {
-			return "res " + c.id + " crash=1 unh=-"
+			return "res " + c.id + " crash=1 unh=- seen=-"
 		}
 		return "res " + c.id + " harness-child-failed"
 	}
@@ -575,7 +575,10 @@ func faultChild(args []string) {
 	}
 	ro.OnDroppedNotification = func(ctx context.Context, n fmt.Stringer) {}
 	finished := make(chan struct{}, 4)
-	obs := ro.NewObserver(func(int) {}, func(error) { finished <- struct{}{} }, func() { finished <- struct{}{} })
+	var seen []string
+	see := func(x string) { mu.Lock(); seen = append(seen, x); mu.Unlock() }
+	obs := ro.NewObserver(func(v int) { see("N" + strconv.Itoa(v)) },
+		func(err error) { see("E" + renderErr(err)); finished <- struct{}{} }, func() { see("C"); finished <- struct{}{} })
 	switch name {
 	case "Future":
 		// the factory runs on a goroutine started with a bare `go func` (operator_creation.go:456)
@@ -633,7 +636,7 @@ func faultChild(args []string) {
 	// give the goroutine the time to leave the library (a crash ends the process before this returns)
 	time.Sleep(300 * time.Millisecond)
 	mu.Lock()
-	fmt.Println("unh=" + joinOrDash(unh))
+	fmt.Println("unh=" + joinOrDash(unh) + " seen=" + joinOrDash(seen))
 	mu.Unlock()
 }
 
